@@ -130,6 +130,7 @@ def scale_cases(n):
         ("body.new binary", "body.new\t0\t%s" % hx(bytes((i * 131) & 255 for i in range(min(n, 1 << 20))) * max(1, n >> 20))),
         ("body.new one long line", "body.new\t1\t%s" % hx(A(b"x"))),
         ("mboxes.parse many", "mboxes.parse\t%s" % hx(mb)),
+        ("c19.msg_rcpts envelope of many", "c19.msg_rcpts\t%s" % hx(mb)),
         ("mbox.parse long name", "mbox.parse\t%s" % hx(A(b"n") + b" <a@b.example>")),
         ("mbox.parse nested parens", "mbox.parse\t%s" % hx(A(b"(") + b"a@b.example")),
         ("mbox.parse nested angle", "mbox.parse\t%s" % hx(A(b"<") + b"a@b.example")),
